@@ -364,6 +364,10 @@ def run(prop, tier, seed, replay=None):
         V.coverage["stutter_pairs"] = dict(pairs=sum(len(v) for v in pair_jobs.values()), calls_compared=pair_cmp)
     if prop == "C09":
         V.coverage["kinds_classified_and_validated"] = kinds_checked
+    if prop == "C04" and tier == "thorough":
+        import selftest                       # binding self-test of all eight store trace judges (tool error on failure)
+        selftest.run("SELFTEST", tier, seed)
+        V.coverage["binding_self_test"] = "8 judges reject a single-field corruption they own"
     if prop in ("C09", "C11") and tier == "thorough":
         V.coverage["apalache_inductive_invariant"] = apalache_inductive(wd)
     V.assumptions = ["TLC explores the generative spec exhaustively for the curated universe only (bounded)",
